@@ -525,7 +525,7 @@ func (x *Exec) parse(ctx context.Context, query string) (wire.PreparedStatements
 		if cols != nil {
 			opts = append(opts, wire.WithColumns(cols))
 		}
-		if _, has := st["toks"]; has {
+		if _, has := st["toks"]; has && !B(st, "nodeclare") {
 			opts = append(opts, wire.WithParameters(wire.ParseParameters(query)))
 		} else if os := L(st, "oids"); len(os) > 0 {
 			po := make([]oid.Oid, len(os))
